@@ -273,6 +273,8 @@ type Interp struct {
 	flushing   bool
 	rb         map[int]float64
 	rocTab     map[*Value][][2]*Term
+	ntpTab     map[int]*StructV
+	ntpVars    map[int]*Term
 }
 
 type ufApp struct {
@@ -360,6 +362,8 @@ func (in *Interp) runPath(prefix []decision) {
 	in.flushing = false
 	in.rb = nil
 	in.rocTab = nil
+	in.ntpTab = nil
+	in.ntpVars = nil
 	in.nowSeq = 0
 	in.lastNowSec, in.lastNowNsec = nil, nil
 	in.sol.Push()
